@@ -600,6 +600,9 @@ def c02(v):
     for ty in FIXED_PICS:
         for x in {"D": P.dates, "T": P.times, "TS": P.ts, "OD": P.od, "YM": P.ym, "DT": P.dt}[ty][:20]:
             fuzz.append((ty + ".unbin", [x if ty != "T" else [0, x[0], x[1]]]))
+    sg = spellgen(v, "texts", spell_cases(v)[::2], chunks=10)       # lenient spellings and perturbations incl. range-end overflows
+    for g in sg:
+        fuzz.append((g[3] + ".parse_at", [g[6], g[5], g[4]]))
     eventtrace(v, "parsefuzz", fuzz, {"range"}, shard=4000)
     # chained sessions: values produced by one call flow into the next; TypeOK after every step
     sessions(v, "chain", 14 if v.tier == "quick" else 56, 2500 if v.tier == "quick" else 10000, {"range", "binding"})
@@ -766,6 +769,16 @@ def c16(v):
     ops = [o for o in pools.SIG if o.startswith("OD.")] + ["TS.oracle_add_days", "TS.oracle_sub_days", "TS.oracle_sub_date",
                                                             "T.from_od", "D.ord_od", "TS.ord_od"]
     plan = pools.plan_for(ops, P, cap=2500 * scale_of(v))
+    # large non-integer day offsets on mid-range dates: the sum stays in range, so the nearest-second clause is judged
+    big = [100000 + 3 / 1024, 65536.1, 200000.7, 1234567.891, 333333.3333, 150000.123, 70000.5000001, 99999.99999, 500000.25001,
+           2500000.6, 12345.678, 86400.000011574, 400000.1 / 3, 999999.4999994213] + [P.rnd.uniform(60000, 2000000) for _ in range(16)]
+    mids = [[vlib.dayno(y, 1 + (y % 12), 1 + (y % 28)), (y * 7919) % 86400, 0] for y in (1, 150, 900, 1500, 1700, 1900, 1969, 1970, 2000, 2024,
+                                                                                           2300, 3000, 4200, 5000, 6000, 7000, 8000, 9000)]
+    for x in mids:
+        for off in big:
+            for sg in (1, -1):
+                plan.append(("OD.add_days", [x, pools.fspec(sg * off)]))
+                plan.append(("TS.oracle_sub_days", [[x[0], x[1], 400000], pools.fspec(sg * off)]))
     # which boundary truncation / rounding picks is C10/C11's business; C16 only demands a whole-second in-range value
     eventtrace(v, "oracle", plan, lambda op: {"range", "panic"} if op in ("OD.trunc", "OD.round") else {"result", "range", "panic"})
 
@@ -976,6 +989,17 @@ def c19(v):
         small = ["A", "D", "F", "H", "M", "O", "N", "P", "S", "Y", "W", ".", "1", "2", " "]
         gens = picgen(v, "len5", small, 5, [[]], workers=max(4, vlib.NCPU - 4))
         replay_pictures(v, "len5", gens)
+    # name tokens in every letter-case spelling x every month and weekday (the case of the first two letters selects the style)
+    plan = []
+    for base in ("MONTH", "MON", "DAY", "DY"):
+        variants = {base, base.lower(), base.capitalize(), base[0].lower() + base[1:], base[0] + base[1].lower() + base[2:],
+                    base[:2] + base[2:].lower(), base[:2].lower() + base[2:]}
+        for var in sorted(variants):
+            for k in range(12):
+                n = vlib.dayno(2007, k + 1, 5 + k)          # twelve months, and weekdays rotate
+                plan.append(("TS.format", [[n, 47289, 123456], list(var + " DD")]))
+                plan.append(("D.format", [n, list("YYYY " + var)]))
+    eventtrace(v, "names", plan, {"result", "panic"}, shard=2000)
     # impl -> spec: long random pictures
     pics = random_pictures(v, 3000 if v.tier == "quick" else 30000)
     plan = []
